@@ -3337,10 +3337,21 @@ func (db *DB) CanLock(ctx context.Context, owner uint64, lockTypes []LockType) (
 // Returns an error if no locks are supplied.
 func (db *DB) TryRLocks(ctx context.Context, owner uint64, lockTypes []LockType) bool {
 	guardSet := db.CreateGuardSetIfNotExists(owner)
+
+	// A lock this owner holds exclusively is downgraded last, once every other
+	// lock has been granted. A downgrade cannot be refused, whereas putting an
+	// exclusive lock back after a refusal further on can be: another owner
+	// may have taken the lock shared in between.
+	var downgrades []LockType
+	acquired := make([]LockType, 0, len(lockTypes))
 	prevStates := make([]RWMutexState, 0, len(lockTypes))
-	for i, lockType := range lockTypes {
+	for _, lockType := range lockTypes {
 		guard := guardSet.Guard(lockType)
 		prevState := guard.State()
+		if prevState == RWMutexStateExclusive {
+			downgrades = append(downgrades, lockType)
+			continue
+		}
 		ok := guard.TryRLock()
 
 		status := "OK"
@@ -3350,10 +3361,15 @@ func (db *DB) TryRLocks(ctx context.Context, owner uint64, lockTypes []LockType)
 		TraceLog.Printf("[TryRLock(%s)]: type=%s owner=%d status=%s", db.name, lockType, owner, status)
 
 		if !ok {
-			restoreGuards(guardSet, lockTypes[:i], prevStates)
+			restoreGuards(guardSet, acquired, prevStates)
 			return false
 		}
+		acquired = append(acquired, lockType)
 		prevStates = append(prevStates, prevState)
+	}
+	for _, lockType := range downgrades {
+		guardSet.Guard(lockType).TryRLock()
+		TraceLog.Printf("[TryRLock(%s)]: type=%s owner=%d status=OK", db.name, lockType, owner)
 	}
 	return true
 }
